@@ -38,6 +38,7 @@ type SeqScenario struct {
 	Span       int               `json:"span"`       // rows of one group are at most this many positions apart
 	MaxGap     int64             `json:"max_gap_ms"` // real-time scenarios: two rows handed in one after the other (no sleep between them) must not be further apart; else the trace is void
 	Reuse      bool              `json:"reuse"`      // the producer re-uses ONE map object for all its rows (cleared and refilled before each call)
+	ConcSync   int               `json:"concsync"`   // direct queries: this many goroutines call EmitSync on the rows at the same time (each result is judged against its own row)
 	Conc       bool              `json:"conc"`       // JOIN scenarios: table updates run in a goroutine of their own, concurrently with EmitSync callers
 	Seed       int64             `json:"seed"`
 	PrintTable bool              `json:"printtable"` // PrintTable() switched on next to the other consumers (it is a sink like any other: it only reads)
@@ -264,6 +265,9 @@ func RunSeq(sc SeqScenario) (evs []Ev, inconclusive string) {
 	}
 	if sc.Conc {
 		return runConc(sc, in, s, srcs), ""
+	}
+	if sc.ConcSync > 0 {
+		return runConcSync(sc, in, s), ""
 	}
 	ops := sc.Ops
 	if len(ops) == 0 {
@@ -539,6 +543,44 @@ func runConc(sc SeqScenario, in *Inst, s *streamsql.Streamsql, srcs map[string]*
 	evs := []Ev{}
 	for _, e := range in.Events() {
 		if e["e"] != "out" { // sink deliveries are not ordered against the brackets; the returned row is what is judged
+			evs = append(evs, e)
+		}
+	}
+	return evs
+}
+
+// runConcSync lets several goroutines call EmitSync at the same time; every returned row is logged together with the row that went in
+// ("cret"), so that the monitor can judge it on its own - the result of a row is a function of that row only.
+func runConcSync(sc SeqScenario, in *Inst, s *streamsql.Streamsql) []Ev {
+	var wg sync.WaitGroup
+	n := sc.ConcSync
+	for w := 0; w < n; w++ {
+		wg.Add(1)
+		go func(w int) {
+			defer wg.Done()
+			r := rand.New(rand.NewSource(sc.Seed + int64(w) + 1))
+			for rep := 0; rep < 6; rep++ { // every row several times: overlap is what matters
+				for i := w; i < len(sc.Rows); i += n {
+					if r.Intn(3) == 0 {
+						runtime.Gosched()
+					}
+					row := decodeRow(sc.Rows[i])
+					arow := unmapRow(sc.ColMap, AbsRow(row))
+					res, err, pan := callSync(s, row)
+					e := Ev{"tr": sc.Tr, "e": "cret", "i": i + 1, "in": arow, "panic": pan, "err": b2i(err != nil), "has": b2i(res != nil)}
+					if res != nil {
+						e["row"] = unmapRow(sc.ColMap, AbsRow(res))
+					}
+					in.Log(e)
+				}
+			}
+		}(w)
+	}
+	wg.Wait()
+	in.Log(Ev{"tr": sc.Tr, "e": "quiesce"})
+	evs := []Ev{}
+	for _, e := range in.Events() {
+		if e["e"] != "out" && e["e"] != "chan" {
 			evs = append(evs, e)
 		}
 	}
